@@ -127,23 +127,46 @@ def c15(pid, tier, replay):
     # (3) generated modules byte-identical (timestamp aside) across processes
     gen_lines = []
     gd = os.path.join(res.wd, "gen")
-    for gi, (gname, lname) in enumerate([("g1", "l1"), ("g2", "l2"), ("gwarn", "lextra"), ("gconfe", "l1")]):
+    LANY = "%%\n[a-z] 'a'\n[ ]+ ;\n"
+    mods = [("g1-l1", p_ct.G["g1"], p_ct.L["l1"], True), ("g2-l2", p_ct.G["g2"], p_ct.L["l2"], True),
+            ("gwarn-lextra", p_ct.G["gwarn"], p_ct.L["lextra"], True), ("gconfe-l1", p_ct.G["gconfe"], p_ct.L["l1"], True),
+            # several conflicts: the order they are serialised in must not depend on the hash seed
+            ("gconf4", "%start E\n%%\nE: E '+' E | E '*' E | E '-' E | E '/' E | 'n';\n",
+             "%%\n\\+ '+'\n\\* '*'\n- '-'\n/ '/'\nn 'n'\n", False),
+            ("gboth-l1", p_ct.G["gboth"], p_ct.L["l1"], False),
+            ("grr3", "%start S\n%%\nS: A 'a' | B 'a' | C 'a' | A 'b' | B 'b' | C 'b';\nA: 'c';\nB: 'c';\nC: 'c';\n", LANY, False)]
+    cand = [i for i in insts if i["kind"] in ("original", "original_noaction") and not i["id"].startswith("doc")]
+    rng3 = random.Random(seed * 7 + 3)
+    rng3.shuffle(cand)
+    for i in cand[:(40 if thorough else 8)]:
+        mods.append((i["id"], i["y"], LANY, False))
+    built_ok = 0
+    for gi, (mid, ytext, ltext, eoc) in enumerate(mods):
         for k in range(4 if thorough else 3):
             d = os.path.join(gd, "g%d" % gi)
             shutil_rm(d)
             os.makedirs(d)
-            open(os.path.join(d, "g.y"), "w").write(p_ct.G[gname])
-            open(os.path.join(d, "l.l"), "w").write(p_ct.L[lname])
+            open(os.path.join(d, "g.y"), "w").write(ytext)
+            open(os.path.join(d, "l.l"), "w").write(ltext)
             o = dict(p_ct.OPTS0)
             o["wae"] = False
+            o["eoc"] = eoc
+            o["allow_missing_terms_in_lexer"] = True
+            o["allow_missing_tokens_in_parser"] = True
             rr = p_ct.ctstep(d, None, "both", o)
-            gen_lines.append(json.dumps(dict(ev="built", id="generated-%s-%s" % (gname, lname), width=0, proc=k,
+            if k == 0 and rr.get("ok"):
+                built_ok += 1
+            gen_lines.append(json.dumps(dict(ev="built", id="generated-%s" % mid, width=0, proc=k,
                                              digest="%s|%s" % (rr["grammar_out"].get("digest"), rr.get("lexer_out", {}).get("digest")),
                                              diff="generated parser|generated lexer")) + "\n")
+        shutil_rm(os.path.join(gd, "g%d" % gi))
+    res.notes["generated_module_pairs"] = len(mods)
+    res.notes["generated_module_pairs_built"] = built_ok
+    if built_ok < 6:
+        raise core.ToolError("too few generated modules were actually built (%d)" % built_ok)
     lines += gen_lines
     res.notes["processes"] = K
     res.notes["instances"] = len(insts)
-    res.notes["generated_module_pairs"] = 4
     if not replay:
         e = json.loads(lines[0])
         e2 = dict(e, digest=e["digest"] + "x", proc=-1)
